@@ -47,6 +47,60 @@ impl<'tcx> M<'tcx> {
         }
     }
 
+    /// next / next_back / len / size_hint on a modelled iterator value
+    pub fn iter_method(&mut self, it: &mut V<'tcx>, m: &str) -> R<V<'tcx>> {
+        let remaining = |it: &V<'tcx>| -> Option<usize> {
+            fn rem(it: &V<'_>) -> Option<usize> {
+                match it {
+                    V::SliceIter(_, a, b, _) => Some(b - a),
+                    V::Obj("zip", xs) => Some(rem(&xs[0])?.min(rem(&xs[1])?)),
+                    _ => None,
+                }
+            }
+            rem(it)
+        };
+        match m {
+            "len" => return remaining(it).map(|k| V::Int(k as i128)).ok_or_else(|| Stop::Unsupported("len of modelled iterator".into())),
+            "size_hint" => {
+                let k = remaining(it).ok_or_else(|| Stop::Unsupported("size_hint of modelled iterator".into()))? as i128;
+                return Ok(V::Agg(vec![V::Int(k), V::Enum(1, vec![V::Int(k)])]));
+            }
+            _ => {}
+        }
+        match it {
+            V::SliceIter(sp, a, b, _) => {
+                let (stride, _) = sp.sl.unwrap();
+                if *a >= *b {
+                    return Ok(V::Enum(0, vec![]));
+                }
+                let k = if m == "next" {
+                    *a += 1;
+                    *a - 1
+                } else {
+                    *b -= 1;
+                    *b
+                };
+                Ok(V::Enum(1, vec![V::Ptr(Ptr { alloc: sp.alloc, path: sp.path.clone(), off: sp.off + k * stride, sl: None })]))
+            }
+            V::Obj("zip", xs) => {
+                if m != "next" {
+                    return unsup("next_back on zip");
+                }
+                if remaining(&xs[0]) == Some(0) || remaining(&xs[1]) == Some(0) {
+                    return Ok(V::Enum(0, vec![]));
+                }
+                let (l, r) = xs.split_at_mut(1);
+                let x = self.iter_method(&mut l[0], "next")?;
+                let y = self.iter_method(&mut r[0], "next")?;
+                match (x, y) {
+                    (V::Enum(1, mut a), V::Enum(1, mut b)) => Ok(V::Enum(1, vec![V::Agg(vec![a.remove(0), b.remove(0)])])),
+                    _ => Ok(V::Enum(0, vec![])),
+                }
+            }
+            o => unsup(format!("iterator method {} on {:?}", m, o)),
+        }
+    }
+
     pub fn model(&mut self, d: DefId, cargs: ty::GenericArgsRef<'tcx>, name: &str, vals: &mut Vec<(V<'tcx>, Ty<'tcx>)>, ret_ty: Ty<'tcx>) -> R<Option<V<'tcx>>> {
         let tcx = self.tcx;
         let n = strip_generics(name);
@@ -248,31 +302,28 @@ impl<'tcx> M<'tcx> {
             "<I as std::iter::IntoIterator>::into_iter" => return Ok(Some(vals[0].0.clone())),
             _ => {}
         }
-        // ---- methods on the slice iterator model
+        // ---- methods on modelled iterators (value-based dispatch)
         if let Some((V::Ptr(p), t0)) = vals.first().cloned() {
             let inner = pointee(t0);
-            let iname = format!("{}", inner);
-            if iname.starts_with("std::slice::Iter<") || iname.starts_with("std::slice::IterMut<") || iname.starts_with("core::slice::Iter") {
-                let cur = self.load(&p, inner)?;
-                if let V::SliceIter(sp, a, b, fl) = cur {
-                    let (stride, _) = sp.sl.unwrap();
-                    let m = n.rsplit("::").next().unwrap_or("");
-                    match m {
-                        "next" | "next_back" => {
-                            if a >= b {
-                                return Ok(Some(V::Enum(0, vec![])));
-                            }
-                            let (k, na, nb) = if m == "next" { (a, a + 1, b) } else { (b - 1, a, b - 1) };
-                            self.store(&p, inner, V::SliceIter(sp.clone(), na, nb, fl))?;
-                            let e = V::Ptr(Ptr { alloc: sp.alloc, path: sp.path.clone(), off: sp.off + k * stride, sl: None });
-                            return Ok(Some(V::Enum(1, vec![e])));
-                        }
-                        "len" => return Ok(Some(V::Int((b - a) as i128))),
-                        "size_hint" => return Ok(Some(V::Agg(vec![V::Int((b - a) as i128), V::Enum(1, vec![V::Int((b - a) as i128)])]))),
-                        _ => {}
+            let m = n.rsplit("::").next().unwrap_or("");
+            if matches!(m, "next" | "next_back" | "len" | "size_hint") && !matches!(inner.kind(), ty::Slice(_) | ty::Array(..)) {
+                if let Ok(cur) = self.load(&p, inner) {
+                    if matches!(cur, V::SliceIter(..) | V::Obj(..)) {
+                        let mut it = cur;
+                        let r = self.iter_method(&mut it, m)?;
+                        self.store(&p, inner, it)?;
+                        return Ok(Some(r));
                     }
                 }
             }
+        }
+        if n == "std::iter::Iterator::zip" || n == "std::iter::zip" {
+            let a = vals[0].0.clone();
+            let b = vals[1].0.clone();
+            if matches!(a, V::SliceIter(..) | V::Obj(..)) && matches!(b, V::SliceIter(..) | V::Obj(..)) {
+                return Ok(Some(V::Obj("zip", vec![a, b])));
+            }
+            return unsup(format!("zip of unmodelled iterators {:?} / {:?}", a, b));
         }
         // by-value iterator adaptors on the slice iterator: fall back to the generic default bodies
         // Range<usize> iteration
